@@ -144,7 +144,7 @@ GM = {
         }
     }'''],
     'at_end_before_tail': True,
-    'expect': {'loops': ['for', 'for'], 'returns': 0},
+    'expect': {'loops': ['for', 'for']},
 }
 P = ('C01', 'C02', 'C05', 'C13')
 
